@@ -1293,7 +1293,7 @@ def _mark_home(nodes, h, args=()):
                 x._home_module = home
 
 
-def inline_lexical_helpers(fnode, depth=2, resolver=None):
+def inline_lexical_helpers(fnode, depth=2, resolver=None, skip=None):
     """A structural copy of function `fnode` in which statements of the forms `helper(args)`, `x = helper(args)` and
     `x, y = helper(args)` - helper being a function defined lexically around the statement (enclosing function or
     module) whose body is straight-line code ending in at most one `return` - are replaced by the helper's statements
@@ -1329,6 +1329,8 @@ def inline_lexical_helpers(fnode, depth=2, resolver=None):
             if isinstance(st, ast.Return) and isinstance(st.value, ast.Call) and d > 0:
                 tc = st.value
                 th = _lookup_def(tc) or (resolver(tc) if resolver is not None else None)
+                if th is not None and skip is not None and skip(th):
+                    th = None
                 if th is not None and th is not fnode and not th.decorator_list and not th.args.vararg and not th.args.kwarg and not any(isinstance(a, ast.Starred) for a in tc.args) and not any(k.arg is None for k in tc.keywords) and not any(isinstance(x, (ast.Yield, ast.YieldFrom, ast.Global, ast.Nonlocal)) for x in ast.walk(th)):
                     tparams = [a.arg for a in th.args.posonlyargs + th.args.args + th.args.kwonlyargs]
                     tmap = {}
@@ -1381,6 +1383,8 @@ def inline_lexical_helpers(fnode, depth=2, resolver=None):
                         out += expand_block(tnew, d - 1)
                         continue
             h = (_lookup_def(call) or (resolver(call) if resolver is not None else None)) if call is not None and d > 0 else None
+            if h is not None and skip is not None and skip(h):
+                h = None
             sb = straight(h) if h is not None and h is not fnode and not h.decorator_list and not h.args.vararg and not h.args.kwarg else None
             if sb is None or any(isinstance(a, ast.Starred) for a in call.args) or any(k.arg is None for k in call.keywords):
                 # recurse into compound statements
@@ -1625,15 +1629,17 @@ def expand_pure_calls(p, module, expr, depth=2):
     return X(depth).visit(_copy(expr))
 
 
-def inlined_view(p, f, prefix=None, depth=2):
+def inlined_view(p, f, prefix=None, depth=2, keep_loops=False):
     """f as it runs: straight-line helpers it calls (local ones, and module-level functions of the project below package
     `prefix`) are written out in place.  A registered Func copy; cached per project."""
     from sa.core import Func
 
     cache = p.__dict__.setdefault("_inlined_views", {})
-    key = (f.qualname, prefix, depth)
+    key = (f.qualname, prefix, depth, keep_loops)
     if key not in cache:
-        node = inline_lexical_helpers(f.node, depth=depth, resolver=project_resolver(p, f.module, prefix))
+        # keep_loops: helpers that loop (a fold of assert_ over a list of checks) stay calls - rules know them as such
+        skip = (lambda h: any(isinstance(x, (ast.For, ast.While)) for x in ast.walk(h))) if keep_loops else None
+        node = inline_lexical_helpers(f.node, depth=depth, resolver=project_resolver(p, f.module, prefix), skip=skip)
         g = Func(qualname=f.qualname, module=f.module, node=node, cls=f.cls, parent=f.parent)
         p.func_of_node[id(node)] = g
         cache[key] = g
